@@ -219,6 +219,9 @@ func (e *env) commit(w *world, tr *trie.Trie, exp *expState, minset []minEntry, 
 	}
 	expected := ref.StoredByPath()
 	old := w.path.Listing()
+	if e.r.Intn(4) == 0 {
+		tr = tr.Copy() // committing a copy (as state.StateDB does) must give the same node set: tracers are copied
+	}
 	root, set := tr.Commit(e.r.Intn(2) == 0 && w.pdb == nil) // hashdb decodes collected leaves as accounts
 	if root != refRoot {
 		return fmt.Sprintf("Commit root %x, reference root of the model tree %x", root, refRoot)
@@ -397,6 +400,16 @@ func (e *env) route(a, b []tk.KV) []op {
 			}
 		}
 		out = append(out, o)
+	}
+	// now and then more than 100 modifications (an overwrite-and-restore loop on one key of the
+	// target set): Commit then collects the nodes with its concurrent committer
+	if len(b) > 0 && e.r.Intn(10) == 0 {
+		x := b[e.r.Intn(len(b))]
+		var bulk []op
+		for i := 0; i < 51; i++ {
+			bulk = append(bulk, op{x.K, 332 - x.V%2}, op{x.K, x.V})
+		}
+		out = append(out, bulk...)
 	}
 	// untouched keys: overwrite and restore / insert and delete
 	if len(e.universe) > 0 && e.r.Intn(2) == 0 {
